@@ -46,6 +46,22 @@ CHECKS = {
         design_ref='DESIGN.md §5 C05',
         note='Trusted base: the :c: format as implemented in vf/refcodec.py (byte-wise copy, table, header); NUL and reserved-suffix texts excluded.',
         technique='runtime monitoring: validating reference decoder + randomised reference encoder (differential oracle)'),
+    'C03': dict(
+        category='exploration',
+        text='Round-trip monitor on the real .p8 writer/reader (stream, path and CLI entries): every observable of the re-read cart is compared with the '
+             'original, the second write must be byte-identical, and an independent reference reader must see the same memory in the file. Sampled carts '
+             'with every byte value in every region and in code.',
+        design_ref='DESIGN.md §5 C03',
+        note='Trusted base: vf/refcodec.read_p8; string re-spelling exactness is left to C06; `__section__`-like source lines excluded.',
+        technique='runtime monitoring: round-trip oracle plus independent reference reader'),
+    'C16': dict(
+        category='exploration',
+        text='Differential monitor: picotool section/PNG writers vs independent reference encoders (byte-equal) and reference-encoded files through '
+             'picotool readers; exhaustive over all sfx note words, gfx value x column pairs, music flag/channel/value combinations and the stego split; '
+             'PICO-8-written testdata pairs compared with each other and with the reference readers.',
+        design_ref='DESIGN.md §5 C16',
+        note='Trusted base: vf/refcodec.py, my reading of the PICO-8 formats, validated in-run on the PICO-8-written carts in tests/testdata.',
+        technique='runtime monitoring: differential oracle against independent reference codecs'),
 }
 
 NOT_BUILT = 'check not built yet in this session (design in DESIGN.md §5); not claimed until its monitor runs silent on the unchanged tree'
